@@ -10,6 +10,8 @@
 (*         bad, attrs = sequence of <<name, value>>, text/values renamed    *)
 (*         injectively per record                                           *)
 (*   same  the bytes are identical                                          *)
+(*   rawok (opt "unsafe", raw HTML nodes) the B side equals the source      *)
+(*         bytes of the node's own segments                                 *)
 (*   urls  decoded href/src code points on the B side (for "unsafe")        *)
 (*   ph    token value that stands for the placeholder comment body         *)
 (*   nl    token value that stands for a text consisting of one newline     *)
@@ -70,7 +72,7 @@ UrlTok(e, x, y) ==
                                 \/ (x[3][k][1] = y[3][k][1] /\ x[3][k][1] \in {"href", "src"} /\ x[3][k][2] = e.empty)
 UnsafeRel(e) ==
   \/ e.a = e.b
-  \/ (e.kind \in {"HTMLBlock", "RawHTML"} /\ \A i \in 1..Len(e.a) : Placeholder(e, e.a[i]))
+  \/ (e.kind \in {"HTMLBlock", "RawHTML"} /\ e.rawok /\ \A i \in 1..Len(e.a) : Placeholder(e, e.a[i]))   \* rawok: the unsafe side is the node's own source bytes
   \/ /\ e.kind \in {"Link", "Image", "AutoLink"}
      /\ Len(e.a) = Len(e.b) /\ \A i \in 1..Len(e.a) : UrlTok(e, e.a[i], e.b[i])
      /\ \E k \in 1..Len(e.urls) : Dangerous(e.urls[k])
